@@ -501,6 +501,9 @@ func runC04(c *Ctx, r *Rec) {
 			r.ok("D5-capacity-agreement", c.fdName(fd), c.pos(fd.Pos()), "reads len(channel), which the language bounds by the capacity")
 		}
 	}
+	checkQueueResets(c, r, "D5-list-and-tokens-together", "D5-capacity-agreement", qr)
+	checkDefaultOnlyForZero(c, r, "D5-requested-capacity-honoured", fileFuncs(c, "collection", qr.cls))
+	shapeLints(c, r, append(fileFuncs(c, "collection", qr.q, qr.cls), moduleFuncsReturning(c, "QueueLike")...))
 	r.floorSoft("D5-capacity-agreement", "collection.QueueLike/capacity-sites", "fewer places than on the reference tree create the channel or read its length in the class and instance methods (moved into a private function)")
 }
 
@@ -571,6 +574,20 @@ func runC05(c *Ctx, r *Rec) {
 	checkNoSendUnderPlainLock(c, r, "D4-no-send-under-plain-lock", qr)
 	checkChannelReplacedOnlyByReset(c, r, "D3-channel-replaced-only-by-reset", qr)
 	checkTokenBalanceAtBirth(c, r, "D2-token-balance", qr)
+	checkQueueResets(c, r, "D2-list-and-tokens-together", "D2-replacement-capacity", qr)
+	// consumers read until the queue reports closed: the loop that does so is entered
+	{
+		var fds []*ast.FuncDecl
+		for _, role := range []string{"collection", "cdcn", "module"} {
+			fds = append(fds, c.allFuncDecls(role)...)
+		}
+		checkLoopsAreEntered(c, r, "D3-consumer-loop-entered", fds, "no value is ever taken from the queue here: a producer that still has more values than the queue holds stays blocked in AddValue for ever", readsQueueHead)
+		own := append(fileFuncs(c, "collection", qr.q, qr.cls), moduleFuncsReturning(c, "QueueLike")...)
+		if parser, err := c.impl("cdcn", "ParserLike"); err == nil && parser != nil {
+			own = append(own, fileFuncs(c, "cdcn", parser)...)
+		}
+		shapeLints(c, r, own)
+	}
 	// outputs of the plumbing helpers are closed when the input is (parked consumers are released)
 	{
 		tmp := newRec(r.Property)
